@@ -221,6 +221,7 @@ int main(void)
             OUT("? %s\n", line);
         }
         fputs(ob, stdout);
+        fflush(stdout); /* a sanitizer abort must not lose the lines of completed cases */
         on = 0;
         ob[0] = 0;
         ++case_index;
